@@ -164,6 +164,11 @@ class C18(Scenario):
                 evs.append([rng.choice([0, 0, 1, 102, 103, 300, 1024, 3000]), rng.random() < 0.6])  # [gap ticks, drain afterwards?]
             case.update(behaviours=beh, debounce=iv, kill_after=rng.choice([0, 1, 10]), restart_on_exit=rng.random() < 0.6, events=evs,
                         final_gap=rng.choice([0, 1, 102, 500] + ([iv * TICKS - 1, iv * TICKS, iv * TICKS + 1] * 2 if iv else [])), second_stop=rng.random() < 0.2)
+            xr = random.Random(f"{seed}:extra")
+            if xr.random() < 0.15:
+                case["early_event"] = xr.randrange(1, 6)
+            if xr.random() < 0.15:
+                case["concurrent_stop"] = xr.randrange(1, 8)
             frng = random.Random(f"{seed}:faults")
             if frng.random() < 0.4:
                 # a system call that takes time: the clock moves between two statements of the caller
@@ -322,9 +327,22 @@ class C18(Scenario):
     # ------------------------------------------------------------------ auto restart
     def run_autorestart(self, sim, case, hist, tricks, wev, table):
         tr = tricks.AutoRestartTrick(["cmd"], kill_after=case["kill_after"], debounce_interval_seconds=case["debounce"], restart_on_command_exit=case["restart_on_exit"])
-        tr.start()
         hist["triggers"] = 0
         hist["separated"] = True
+        early = None
+        if case.get("early_event"):
+            # the observer is already running when the trick is started: its dispatcher thread delivers an event before /
+            # while start() runs
+            def early_src():
+                for _ in range(case["early_event"] - 1):
+                    sim.yield_point("src")
+                tr.dispatch(wev.FileModifiedEvent("/x/early"))
+
+            early = sim.spawn(early_src, "dispatcher", "actor")
+            hist["separated"] = False
+        tr.start()
+        if early is not None:
+            sim.block(lambda: early.state == DONE, why="join-early")
         for i, (gap, drain) in enumerate(case["events"]):
             if gap:
                 sim.sleep(gap / TICKS)
@@ -340,12 +358,25 @@ class C18(Scenario):
             sim.sleep(case["final_gap"] / TICKS)
         hist["spawns_before_stop"] = len(table.procs)
         hist["stop"] = {"inv": sim.next_seq(), "t": sim.now}
+        other = None
+        if case.get("concurrent_stop"):
+            # stop() from a second thread at the same time (signal handler + main thread): whichever call returns, no
+            # child may be alive then
+            def stop2():
+                for _ in range(case["concurrent_stop"] - 1):
+                    sim.yield_point("stop2")
+                tr.stop()
+                hist["alive_children_at_stop2_ret"] = [p.pid for p in table.alive()]
+
+            other = sim.spawn(stop2, "stopper2", "actor")
         tr.stop()
         hist["stop"]["ret"] = sim.next_seq()
         hist["stop"]["t_ret"] = sim.now
         hist["alive_children_at_stop_ret"] = [p.pid for p in table.alive()]
         hist["lib_alive_at_stop_ret"] = [t.name for t in sim.tasks if t.kind == "lib" and t.state != DONE]
         hist["lib_alive_unsignalled"] = [t.name for t in sim.tasks if t.kind == "lib" and t.state != DONE and not t.thread_obj.stopped_event.is_set()]
+        if other is not None:
+            sim.block(lambda: other.state == DONE, why="join-stopper2")
         if case["second_stop"]:
             tr.stop()
         sim.sleep(3.0)  # nothing may be started later
@@ -367,6 +398,8 @@ class C18(Scenario):
         st = hist["stop"]
         if hist["alive_children_at_stop_ret"]:
             v.append(Violation("stop", "C18:autorestart:child-alive-after-stop-returned", f"{hist['alive_children_at_stop_ret']} log={table.log[-6:]}"))
+        if hist.get("alive_children_at_stop2_ret"):
+            v.append(Violation("stop", "C18:autorestart:child-alive-after-concurrent-stop-returned", f"{hist['alive_children_at_stop2_ret']} log={table.log[-6:]}"))
         if hist["spawns_after"] != len([p for p in table.procs if p.start <= st["t_ret"]]) or any(lg[0] == "spawn" and lg[3] > st["ret"] for lg in table.log):
             v.append(Violation("stop", "C18:autorestart:child-started-after-stop-returned", f"log={table.log[-6:]} stop={st}"))
         if hist["lib_alive_at_stop_ret"]:
